@@ -3,6 +3,7 @@ package main
 import (
 	"fmt"
 	"go/token"
+	"go/types"
 	"strings"
 
 	"golang.org/x/tools/go/ssa"
@@ -269,6 +270,19 @@ func runC18(c *Ctx) {
 							keys[vt] = map[string]bool{}
 						}
 						keys[vt][s] = true
+						// one table of records instead of two parallel maps: the record carries both numbers
+						if st, ok := mu.Value.Type().Underlying().(*types.Struct); ok {
+							for i := 0; i < st.NumFields(); i++ {
+								if b, ok := st.Field(i).Type().Underlying().(*types.Basic); ok {
+									if b.Kind() == types.Float64 {
+										keys["float64"][s] = true
+									}
+									if b.Kind() == types.Int {
+										keys["int"][s] = true
+									}
+								}
+							}
+						}
 					}
 				}
 			}
